@@ -79,7 +79,7 @@ def insert_hugr_is_isomorphic_embedding(dels):
     # links: ordered per-port lists of the image, both ends (quick: at the ports of B's first link; thorough: at any port)
     cands = [i for i in live if i != 0]
     if cands:
-        if P(True, False) and blinks:
+        if blinks:
             sv, so, tv, to = blinks[0].a, blinks[0].o, blinks[0].b, blinks[0].q
         else:
             sv = tv = cands[sym.concretize(sym.int("qv", 0, len(cands) - 1))]
